@@ -3,8 +3,8 @@ import math
 import random
 from hypothesis import strategies as st
 
-from ..core import Clause, Violation, guard, ulp
-from ..harness import make_problem, dispose, seed_all, Patched
+from ..core import Clause, Enum, Violation, guard, ulp
+from ..harness import make_problem, dispose, seed_all, Patched, pname, NAME_STYLES
 
 PROPERTY = "C08"
 LEVEL = "exploration"
@@ -125,6 +125,29 @@ def check_operator(case):
         ["coincident-parents"] if near else [])}
 
 
+def sbx_lattice(tier):
+    """parents on / a few ulps inside a bound and a few ulps apart: where SBX leaves the box only through rounding"""
+    boxes = [[0.0, 1.0], [1.0, 11.0], [-5.0, -4.0], [1e6, 1e6 + 1e-3]] + ([[-1e-3, 1e-3], [3.0, 1e9]] if tier != "quick" else [])
+    seeds = range(6 if tier == "quick" else 24)
+    for b in boxes:
+        for side in (0, 1):
+            inward = b[1 - side]
+            for k in range(3):
+                a = b[side]
+                for _ in range(k):
+                    a = math.nextafter(a, inward)
+                for j in (1, 2, 3, 40):
+                    c = a
+                    for _ in range(j):
+                        c = math.nextafter(c, inward)
+                    for eta in (0, 1, 15, 20):
+                        for sd in seeds:
+                            for swap in (False, True):
+                                yield {"op": "sbx", "boxes": [b], "p1": [c if swap else a], "p2": [a if swap else c],
+                                       "rel": ["adjacent"], "prob": 1.0, "eta": eta, "max_it": 1, "it": 0, "pert": 0.0,
+                                       "seed": sd}
+
+
 # ---------------------------------------------------------------- generators
 
 @st.composite
@@ -144,7 +167,7 @@ def gen_cases(draw):
         prec = [draw(st.sampled_from([1e-1, 1e-2, 1e-3, 0.5, 1.0, 1e-6, 0.25, 0.2, 0.05, 0.125, 2.0]))
                 for _ in range(n)]
     return {"kind": kind, "boxes": boxes, "prec": prec, "number": draw(st.integers(1, 12)),
-            "k": draw(st.integers(2, 4)), "seed": draw(st.integers(0, 2 ** 31))}
+            "k": draw(st.integers(2, 4)), "seed": draw(st.integers(0, 2 ** 31)), "names": draw(st.sampled_from(NAME_STYLES))}
 
 
 def make_generator(kind, ps, number, k):
@@ -188,7 +211,7 @@ def check_generator(case):
     kind, boxes = case["kind"], case["boxes"]
     ps = []
     for i, b in enumerate(boxes):
-        p = {"name": "x%d" % i, "bounds": list(b)}
+        p = {"name": pname(i, case.get("names", "x")), "bounds": list(b)}
         if case["prec"]:
             p["precision"] = case["prec"][i]
         ps.append(p)
@@ -266,7 +289,12 @@ def run_cases(draw):
             "fails": fails if draw(st.booleans()) else [], "prec": prec,
             # a collapsed population: tiny N, many generations, low (valid) mutation probability, optimum in a corner
             "collapse": collapse,
-            "pm": draw(st.sampled_from([0.01, 0.02, 0.05, 0.2]))}
+            "pm": draw(st.sampled_from([0.01, 0.02, 0.05, 0.2])),
+            "names": draw(st.sampled_from(NAME_STYLES)),
+            # the box is edited in place after the algorithm object was created (a study re-using one set-up): the
+            # box declared when run() starts is the one that counts.  rebox = (shift in widths, scale) of the first box
+            "rebox": draw(st.one_of(st.none(), st.none(), st.tuples(st.sampled_from([-3.0, -1.0, 0.0, 0.5, 2.0]),
+                                                                     st.sampled_from([0.1, 0.5, 1.0, 3.0]))))}
 
 
 def algorithm_class(name):
@@ -297,18 +325,26 @@ def check_run(case):
         if case.get("collapse"):
             return [sum(xi for xi in x) + 0.01 * j * x[0] for j in range(m)]       # optimum in the corner of the box
         return [sum((xi - (j + 1) / (m + 1.0)) ** 2 for xi in x) + 0.1 * j * x[0] for j in range(m)]
-    ps = [{"name": "x%d" % i, "bounds": list(b)} for i, b in enumerate(boxes)]
+    ps = [{"name": pname(i, case.get("names", "x")), "bounds": list(b)} for i, b in enumerate(boxes)]
     prec = case.get("prec")
     if prec:
         for p_, q_ in zip(ps, prec):
             if q_:
                 p_["precision"] = q_
+    rebox = case.get("rebox")
+    if rebox:
+        for p_, b in zip(ps, boxes):
+            w = b[1] - b[0]
+            p_["bounds"] = [b[0] + rebox[0] * w, b[0] + rebox[0] * w + rebox[1] * w]
     cs = [{"name": "f%d" % j, "criteria": "minimize"} for j in range(m)]
     prob = make_problem(ps, cs, ev)
     seed_all(case["seed"])
     try:
         with guard("runs"):
             alg = algorithm_class(case["alg"])(prob)
+            if rebox:
+                for p_, b in zip(prob.parameters, boxes):
+                    p_["bounds"] = list(b)
             alg.options["max_population_size"] = case["N"]
             alg.options["max_population_number"] = case["G"]
             if case.get("collapse"):
@@ -332,11 +368,16 @@ def check_run(case):
                 raise Violation("runs", "%s:out-of-box" % case["alg"], "%s N=%d G=%d evaluated %r outside %r" % (
                     case["alg"], case["N"], case["G"], v, boxes))
     return {"nt": case["G"] >= 2, "classes": [case["alg"], "failures" if fails else "clean"] + (
-        ["collapsed-population"] if case.get("collapse") else []) + (["periodic-failures"] if case.get("periodic") else [])}
+        ["collapsed-population"] if case.get("collapse") else []) + (["periodic-failures"] if case.get("periodic") else []) + (["rebox"] if rebox else [])}
 
 
 CLAUSES = [
     Clause("operators", op_cases(), check_operator, quick=12000, thorough=40000, quick_shards=4),
     Clause("generators", gen_cases(), check_generator, quick=1500, thorough=10000, quick_shards=2),
     Clause("runs", run_cases(), check_run, quick=180, thorough=900, quick_shards=4),
+]
+ENUMS = [
+    Enum("sbx-at-bounds", sbx_lattice, check_operator, tiers=("quick", "thorough"), chunk=600,
+         exhaustive_note="SBX on every parent pair {bound + 0..2 ulps} x {1,2,3,40 ulps apart} x both orders x eta in "
+                         "{0,1,15,20} x 6 (thorough 24) RNG seeds x 10 repetitions, 4 (6) boxes"),
 ]
